@@ -143,7 +143,7 @@ fn one(args: &[String]) -> i32 {
             .spawn_scoped(s, || {
                 let mut st = Stats::default();
                 let (o, rendered, _) = run_one(d.as_ref(), &tape, &mut st, &hz, mode, Tier::Quick, true);
-                (o, rendered)
+                (pick_failure(d.id(), &findings, o), rendered)
             })
             .expect("spawn")
             .join()
@@ -153,6 +153,7 @@ fn one(args: &[String]) -> i32 {
         Outcome::Pass => json!({"outcome":"pass","rendered":rendered}),
         Outcome::Discard(w) => json!({"outcome":"discard","why":w,"rendered":rendered}),
         Outcome::Fail(f) => json!({"outcome":"fail","sig":f.sig,"detail":f.detail,"rendered":rendered}),
+        Outcome::FailMany(_) => unreachable!(),
     };
     let _ = std::fs::write(&args[3], serde_json::to_string(&v).unwrap());
     0
